@@ -211,6 +211,7 @@ ROUND8 = {
  "C07": "Injection site check-raw: expressions whose operators are made of comment / quote characters outside quotes (#>>, #, ->, ^).",
  "C11": "Files holding comments only; every file a successful apply went through must be recorded as applied.",
  "C12": "CLI tier: a trigger (BEGIN ...; END;) at the head of the file and a --dry-run before the real run, which must reach the same verdict and change nothing (one defect repaired).",
+ "C13": "Sub-check baseline-then-failure: a first run with --baseline in all mode whose later file fails must leave the database as it was (one finding recorded).",
  "C16": "Plans through drivers opened against CockroachDB / PostgreSQL 15 / 10 (enumerated for every third edit, sampled).",
  "C18": "Mixed-case table Users in the initial schema.",
  "C19": "Current databases also created from hand-written DDL (lower-case constraint keyword, bare / double-quoted names, parent spelled in another case); the names a pattern must remove are those of the database, not of Atlas' own inspection (one defect repaired).",
